@@ -391,6 +391,56 @@ fn judge_polygon(case: &Case, l: &mut Local) {
     }
 }
 
+/// The ball rolled round an OPEN wavy row of points and back to where it started: at each end of the row it
+/// has to come back round the point it just left. `which` = number of points, `idx[0]` = waviness pattern,
+/// `idx[1]` = 0 counter-clockwise / 1 clockwise, `param` = length unit.
+fn judge_row(case: &Case, l: &mut Local) {
+    let mk = || serde_json::to_value(case).unwrap();
+    let sc = case.param;
+    let n = case.which;
+    let pat = case.idx[0];
+    let pdir = if case.idx[1] == 0 { AngleDir::Ccw } else { AngleDir::Cw };
+    let pts: Vec<Point2> = (0..n).map(|i| Point2::new(i as f64 * sc, 0.3 * sc * ((((i + 1) * (pat + 2)) % 3) as f64 - 1.0))).collect();
+    let rad = 1.2 * sc;
+    l.eval();
+    l.bucket("ball pivot round an open row");
+    if sc != 1.0 {
+        l.bucket("ball pivot at another length unit");
+    }
+    verif::set_budget(10_000);
+    let r = guarded(|| ball_pivot_with_centers_2d(&pts, BallPivotStart::StartOnIndexDir(0, engeom::Vector2::new(-1.0, 0.0)), BallPivotEnd::EndOnIndex(0), pdir, rad).map_err(|e| e.to_string()));
+    reset_budget();
+    match r {
+        Err(e) => {
+            l.check("ball pivot terminates", if e.contains("VERIF_BUDGET") { "budget" } else { "panic" }, false, mk, || e.clone());
+        }
+        Ok(Err(e)) => {
+            l.check("the walk round an open row returns to its start having touched every point", "rejected", false, mk, || e.clone());
+        }
+        Ok(Ok((idx, centres))) => {
+            let mut ok = centres.len() + 1 == idx.len();
+            let mut worst = 0.0f64;
+            let mut inside = 0.0f64;
+            for (k, c) in centres.iter().enumerate() {
+                if k + 1 >= idx.len() {
+                    break;
+                }
+                let (a, b) = (pts[idx[k]], pts[idx[k + 1]]);
+                worst = worst.max((d2(c, &a) - rad).abs()).max((d2(c, &b) - rad).abs());
+                for p in pts.iter() {
+                    inside = inside.max(rad - d2(p, c));
+                }
+            }
+            ok &= worst <= 1e-9 * sc && inside <= 1e-9 * sc;
+            l.outcome(hash_of(&(idx.len(), n, 11u8)));
+            l.check("every pivot step has its centre one radius from both hull points and no point strictly inside", "row", ok, mk, || format!("unit {:e}: indices {:?}, worst radius error {:e}, deepest point {:e} inside a ball", sc, idx, worst, inside));
+            let all = (0..n).all(|i| idx.contains(&i));
+            let back = idx.len() >= 2 && idx[0] == 0 && *idx.last().unwrap() == 0;
+            l.check("the walk round an open row returns to its start having touched every point", "", all && back && idx.len() == 2 * n - 1, mk, || format!("unit {:e}: {} points, indices {:?}", sc, n, idx));
+        }
+    }
+}
+
 fn sample_mesh(which: usize) -> Mesh {
     match which {
         0 => Mesh::create_box(1.0, 2.0, 3.0, false),
@@ -597,6 +647,7 @@ pub fn judge(case: &Case, l: &mut Local) {
         "hull" => judge_hull(case, l),
         "diam" => judge_diam(case, l),
         "polygon" => judge_polygon(case, l),
+        "row" => judge_row(case, l),
         "uniform" => judge_uniform(case, l),
         "dense" => judge_dense(case, l),
         "mpoisson" => judge_mpoisson(case, l),
@@ -729,6 +780,16 @@ pub fn cases(tier: Tier) -> Vec<Case> {
             out.push(c("diam", m, 0, 0.0));
         }
     }
+    // open wavy rows of 3..8 points x 3 waviness patterns x both rolling directions x 4 length units
+    for n in 3..=8usize {
+        for pat in 0..3usize {
+            for d in 0..2usize {
+                for unit in [1.0, 1e-7, 1e-3, 1e4] {
+                    out.push(c("row", vec![pat, d], n, unit));
+                }
+            }
+        }
+    }
     // polygons: every cyclic sequence of 3..tier distinct lattice points (simplicity tested inside)
     let maxlen = tier.pick(5, 6);
     fn rec(cur: &mut Vec<usize>, maxlen: usize, out: &mut Vec<Vec<usize>>) {
@@ -781,7 +842,7 @@ pub fn run(tier: Tier) -> i32 {
     let mut cx = Ctx::new("C15", tier, "exploration");
     cx.rule = "kd-trees: every multiset of <= 4 points of the 3x3 lattice and <= 3 of the 2x2x2 lattice (duplicates included), 4 structured large sets (8x8 grid, 40 duplicates, 1000 collinear, two clusters) x a half-integer query grid x k in {1,2,3,n,n+2} x 5 radii; partial tree: every ordered subset of <= 4 of 6 points; Poisson disk: every ordering of every subset (2..5) of 6 lattice points x 4 radii; hulls: every subset of 3..6 lattice points (+ duplicates); farthest pair on the hull of every subset of 3..4 (thorough 5) points of a 5x5 lattice given as a polygon from every start vertex; every simple lattice polygon with <= 5 (thorough 6) vertices in both orientations for order detection, from_points_ccw and ball pivot at 3 radii; mesh sampling with the RNG owned by the explorer: all 216 draw triples per mesh for sample_uniform, dense sampling at 3 spacings, the Poisson sampler's shuffle explored with <= 2 non-default draws. distinct = distinct cases".into();
     cx.bounds = json!({"kd2_multiset": 4, "kd3_multiset": 3, "partial_subset": 4, "poisson_subset": 5, "polygon_vertices": tier.pick(5, 6), "rng_alphabet": 6, "shuffle_deviations": 2});
-    cx.require(&["kd-tree with duplicate points", "kd-tree with distinct points", "kd-tree at another length unit", "3D kd-tree", "structured large kd-tree", "kd-tree over gridded mesh samples", "index-remapped partial tree", "poisson-disk ordering", "collinear point set", "point set with duplicates", "general point set", "convex polygon given directly, every start vertex", "counter-clockwise simple polygon", "clockwise simple polygon", "ball pivot run", "ball pivot outline with filled gaps", "scripted uniform draw", "dense sampling", "scripted shuffle of the mesh Poisson sampler"]);
+    cx.require(&["ball pivot round an open row", "ball pivot at another length unit", "kd-tree with duplicate points", "kd-tree with distinct points", "kd-tree at another length unit", "3D kd-tree", "structured large kd-tree", "kd-tree over gridded mesh samples", "index-remapped partial tree", "poisson-disk ordering", "collinear point set", "point set with duplicates", "general point set", "convex polygon given directly, every start vertex", "counter-clockwise simple polygon", "clockwise simple polygon", "ball pivot run", "ball pivot outline with filled gaps", "scripted uniform draw", "dense sampling", "scripted shuffle of the mesh Poisson sampler"]);
     cx.assume("ties exactly on the k-th neighbour or the radius boundary are gray (either answer accepted); uniformity beyond 'the face is the inverse-CDF image of the draw' is not claimed");
     let cs = cases(tier);
     let l = sweep(&cs, judge);
